@@ -80,7 +80,10 @@ func elementFilters(c *Ctx, call *ssa.Call, elem ssa.Value) []elemFilter {
 		if !controls {
 			continue
 		}
-		if dependsOnValue(ifi.Cond, elem, 0) || dependsOnElemDeep(ifi.Cond, elem, 0) {
+		// go/ssa does not share `el.Value.(*CandidateNode)` between two mentions: a second
+		// mention in the condition is another load of the same list element
+		root := listElementOf(elem)
+		if dependsOnValue(ifi.Cond, elem, 0) || dependsOnElemDeep(ifi.Cond, elem, 0) || (root != nil && readsListElement(ifi.Cond, root, 0)) {
 			out = append(out, elemFilter{ifi.Cond, a1 && !a0, describeCond(c, ifi.Cond)})
 		}
 	}
@@ -200,4 +203,58 @@ func ruleNoFilter(c *Ctx, rule string, fnName string, actions map[string]bool, a
 	if n == 0 {
 		r.Undecided(rule, fnName+"/element-action", c.P.pos(fn.Pos()), "no call handing a node element on was found: shape not recognised")
 	}
+}
+
+// listElementOf: elem is `el.Value.(*CandidateNode)`; returns el (the *list.Element value).
+func listElementOf(elem ssa.Value) ssa.Value {
+	if ta, ok := elem.(*ssa.TypeAssert); ok {
+		elem = ta.X
+	}
+	u, ok := elem.(*ssa.UnOp)
+	if !ok {
+		return nil
+	}
+	fa, ok := u.X.(*ssa.FieldAddr)
+	if !ok || fieldName(fa) != "Value" {
+		return nil
+	}
+	return fa.X
+}
+
+// readsListElement: v is computed from el.Value (any load of it), through type
+// assertions, field reads, comparisons and calls given it as an argument.
+func readsListElement(v ssa.Value, el ssa.Value, d int) bool {
+	if d > 10 {
+		return false
+	}
+	switch x := v.(type) {
+	case *ssa.TypeAssert:
+		return readsListElement(x.X, el, d+1)
+	case *ssa.UnOp:
+		if fa, ok := x.X.(*ssa.FieldAddr); ok && fieldName(fa) == "Value" && fa.X == el {
+			return true
+		}
+		return readsListElement(x.X, el, d+1)
+	case *ssa.FieldAddr:
+		return readsListElement(x.X, el, d+1)
+	case *ssa.BinOp:
+		return readsListElement(x.X, el, d+1) || readsListElement(x.Y, el, d+1)
+	case *ssa.Call:
+		for _, a := range x.Call.Args {
+			if readsListElement(a, el, d+1) {
+				return true
+			}
+		}
+	case *ssa.Phi:
+		for _, e := range x.Edges {
+			if e != v && readsListElement(e, el, d+1) {
+				return true
+			}
+		}
+	case *ssa.Extract:
+		return readsListElement(x.Tuple, el, d+1)
+	case *ssa.MakeInterface:
+		return readsListElement(x.X, el, d+1)
+	}
+	return false
 }
